@@ -375,8 +375,62 @@ func collectErrSites(c *Ctx) []errSite {
 			})
 		}
 	}
+	// fixed-code constructors: a straight-line function that only calls a constructor (or another fixed-code
+	// constructor) with a constant code and returns the result — invalidParamsResponse(req) and the like. The fault such
+	// a call reports is classified where it is called, like a call of the constructor itself.
+	type fixedCtor struct {
+		code ssa.Value
+		msg  int
+	}
+	fixed := map[*ssa.Function]*fixedCtor{}
+	for changed := true; changed; {
+		changed = false
+		for _, fn := range c.P.LibFns {
+			if ctors[fn] != nil || fixed[fn] != nil || len(fn.Blocks) != 1 {
+				continue
+			}
+			var only *ssa.Call
+			nCalls := 0
+			for _, in := range fn.Blocks[0].Instrs {
+				if call, ok := in.(*ssa.Call); ok {
+					if sc := ir.StaticCallee(call); sc != nil && (ctors[sc] != nil && ctors[sc].code >= 0 || fixed[sc] != nil) {
+						only = call
+						nCalls++
+					}
+				}
+			}
+			if nCalls != 1 {
+				continue
+			}
+			ret, ok := fn.Blocks[0].Instrs[len(fn.Blocks[0].Instrs)-1].(*ssa.Return)
+			if !ok || len(ret.Results) != 1 || ir.Unwrap(ret.Results[0]) != ssa.Value(only) {
+				continue
+			}
+			sc := ir.StaticCallee(only)
+			fc := &fixedCtor{msg: -1}
+			if ct := ctors[sc]; ct != nil {
+				if _, isConst := only.Call.Args[ct.code].(*ssa.Const); !isConst {
+					continue
+				}
+				fc.code = only.Call.Args[ct.code]
+				if ct.msg >= 0 {
+					fc.msg = paramIdx(fn, only.Call.Args[ct.msg])
+				}
+			} else {
+				fc.code = fixed[sc].code
+				if fixed[sc].msg >= 0 {
+					fc.msg = paramIdx(fn, only.Call.Args[fixed[sc].msg])
+				}
+			}
+			fixed[fn] = fc
+			changed = true
+		}
+	}
 	var sites []errSite
 	for _, fn := range c.P.LibFns {
+		if fixed[fn] != nil {
+			continue // classified at its callers
+		}
 		body := map[ssa.Value]*errSite{}
 		ir.EachInstr(fn, func(_ *ssa.BasicBlock, _ int, in ssa.Instruction) {
 			switch x := in.(type) {
@@ -392,6 +446,12 @@ func collectErrSites(c *Ctx) []errSite {
 						}
 						if ct.data >= 0 {
 							s.texts = append(s.texts, x.Call.Args[ct.data])
+						}
+						sites = append(sites, s)
+					} else if fc := fixed[sc]; fc != nil {
+						s := errSite{fn: fn, at: x, code: fc.code}
+						if fc.msg >= 0 && fc.msg < len(x.Call.Args) {
+							s.texts = append(s.texts, x.Call.Args[fc.msg])
 						}
 						sites = append(sites, s)
 					}
